@@ -253,6 +253,7 @@ class TlsExtensionServerNameClient(TlsExtensionParsed):
 
         try:
             host_name = six.ensure_text(bytes(bytearray(parser['server_name'])), 'idna')
+            six.ensure_binary(host_name, 'idna')
         except UnicodeError as e:
             six.raise_from(InvalidValue(bytes(bytearray(parser['server_name'])), cls, 'host_name'), e)
 
